@@ -734,11 +734,19 @@ impl CompilerContext<'_> {
             (&mapfile.ins_names, &mapfile.ins_signatures, mapfile.language),
             (&mapfile.timeline_ins_names, &mapfile.timeline_ins_signatures, LanguageKey::Timeline),
         ] {
+            // (opcodes are 16-bit; anything else in a mapfile must not silently alias another opcode)
+            let check_opcode = |opcode: i32, span: Span| raw::Opcode::try_from(opcode).map_err(|_| emitter.emit(error!(
+                message("opcode {opcode} out of range"),
+                primary(span, "opcodes must be from 0 to {}", raw::Opcode::MAX),
+            )));
+
             for &(opcode, ref ident) in names {
-                self.define_global_ins_alias(language, opcode as u16, ident.clone());
+                let opcode = check_opcode(opcode, ident.span)?;
+                self.define_global_ins_alias(language, opcode, ident.clone());
             }
 
             signatures.iter().map(|&(opcode, ref abi_str)| {
+                let opcode = check_opcode(opcode, abi_str.span)?;
                 // since there's no escape syntax in mapfile values, abi_str exactly matches the source text,
                 // so we can construct a SourceStr
                 let abi_source = SourceStr::from_span(abi_str.span, &abi_str);
@@ -749,10 +757,10 @@ impl CompilerContext<'_> {
                 let abi_loc = match mapfile.is_core_mapfile {
                     false => InstrAbiLoc::Span(abi_str.span),
                     true => InstrAbiLoc::CoreMapfile {
-                        language, opcode: opcode as u16, abi_str: abi_str[..].into(),
+                        language, opcode, abi_str: abi_str[..].into(),
                     },
                 };
-                self.set_ins_abi(language, opcode as u16, abi, abi_loc);
+                self.set_ins_abi(language, opcode, abi, abi_loc);
                 Ok::<_, ErrorReported>(())
             }).collect_with_recovery::<()>()?;
         }
@@ -782,7 +790,11 @@ impl CompilerContext<'_> {
             // so we can construct a SourceStr
             let kind_source = SourceStr::from_span(kind_str.span, &kind_str);
             let kind = sp!(kind_str.span => IntrinsicInstrKind::parse(kind_source, emitter)?);
-            self.defs.add_intrinsic_instr(mapfile.language, opcode as _, kind);
+            let opcode = raw::Opcode::try_from(opcode).map_err(|_| emitter.emit(error!(
+                message("opcode {opcode} out of range"),
+                primary(kind_str.span, "opcodes must be from 0 to {}", raw::Opcode::MAX),
+            )))?;
+            self.defs.add_intrinsic_instr(mapfile.language, opcode, kind);
             Ok(())
         }).collect_with_recovery::<()>()?;
 
